@@ -14,7 +14,7 @@ RULE = ('(group, op, X, a) with X a valid group element (unit quaternion up to r
         'by an oracle on the implementation (identities as transformations; Adj/AdjT = vee(T a^ T^-1) / vee(T^-1 a^ T) in rational arithmetic; '
         'Jinvp = (sum_n ad^n/(n+1)!)^-1 p at an independent Log X, Sim3 within the documented truncation) and tied to the model; batches: '
         'broadcastable shape pairs x memory layouts, item by item against single-element calls; judged calls are second calls on their object; '
-        'arguments snapshotted; non-trivial = a != 0; distinct by value; tolerances 256 eps (rotation/scale, Adj), 64 sqrt(eps) (translation block), '
+        'arguments snapshotted; carriers: X / a held by pp.Parameter, deepcopy / copy / pickle / torch.save / state_dict twins, judged item by item by the oracles; non-trivial = a != 0; distinct by value; tolerances 256 eps (rotation/scale, Adj), 64 sqrt(eps) (translation block), '
         'Jinvp oracle (1024 + 16 (1 + |t|) / theta^2) eps, at most 64 sqrt(eps)')
 
 
@@ -367,6 +367,216 @@ def batch_check(pp, torch, g, dname, op, Xrows, arows, bx, ba, layout):
     return None
 
 
+# ---------------------------------------------------------------------------------------------------------------
+# carriers: the property quantifies over group / algebra ELEMENTS, not over how the object holding one was obtained.
+# The same values held by a pp.Parameter, by copies (copy.deepcopy of a Parameter, of a module / list / ParameterList
+# holding one, of a plain LieTensor, copy.copy), by serialisation twins (pickle, torch.save / load of a plain LieTensor,
+# state_dict round trip) or by a Parameter overwritten in place must satisfy the same identities, as the X operand and
+# as the a operand.  Every result is judged by an oracle written from the property text (matrix exponential / rational
+# conjugation / Jacobian series) - never against another pypose call.
+def retr_oracle(g, X, a, got, eps):
+    """got (raw group data) against Exp(a) @ X as matrices: expm(a^) T(X) = T(got); returns a description or None"""
+    np = _np()
+    n = 3 if g == 'SO3' else 4
+    if len(got) != GDIM[g] or any(not math.isfinite(v) for v in got):
+        return 'result %s is not a finite %s element (%d components expected)' % (got, g, GDIM[g])
+    H = np.array(_hat(g, [float(v) for v in a]), dtype=float).reshape(n, n)
+    E, term = np.zeros((n, n)), np.eye(n)
+    for k in range(1, 120):
+        E = E + term
+        term = term @ H / k
+    T = np.array(ref_matrix(g, [float(v) for v in X]), dtype=float).reshape(n, n)
+    G = np.array(ref_matrix(g, [float(v) for v in got]), dtype=float).reshape(n, n)
+    R = E @ T
+    big = max(1.0, float(np.abs(R).max()), float(np.abs(H).max()), float((np.abs(E) @ np.abs(T)).max()))
+    d = float(np.abs(G - R).max())
+    tol = 8 * K_EPS * eps * big
+    if not d <= tol:
+        return ('the matrix of the result differs from expm(a^) @ matrix(X) by %.3g (tolerance %.3g): got element %s, its matrix %s, expected matrix %s'
+                % (d, tol, got, [round(float(v), 6) for v in G.reshape(-1)], [round(float(v), 6) for v in R.reshape(-1)]))
+    return None
+
+
+def jr_oracle(x, got, eps):
+    """Jr(x) against the series of the right Jacobian sum_n (-x^)^n / (n+1)!  (Exp(x+d) = Exp(x) Exp(Jr(x) d) + o(|d|);
+    identity at x = 0); returns a description or None"""
+    np = _np()
+    x = [float(v) for v in x]
+    K = np.array(_hat('SO3', x), dtype=float)
+    J, term = np.zeros((3, 3)), np.eye(3)
+    for k in range(120):
+        J = J + term
+        term = term @ (-K) / (k + 2)
+    if len(got) != 9 or any(not math.isfinite(v) for v in got):
+        return 'Jr returned %s, not a finite 3x3 matrix' % (got,)
+    th = math.sqrt(sum(v * v for v in x))
+    if th == 0.0:
+        return None if list(got) == [1.0, 0.0, 0.0, 0.0, 1.0, 0.0, 0.0, 0.0, 1.0] else 'Jr(0) = %s is not the identity' % (got,)
+    # below the threshold the code returns I (deviation <= |x|, proved); the closed-form coefficients cancel like eps / theta
+    tol = K_EPS * eps * max(1.0, 1.0 / th) + (th if th <= 8 * eps else 0.0)
+    d = float(np.abs(np.array(got, dtype=float).reshape(3, 3) - J).max())
+    if not d <= tol:
+        return 'Jr(%s) differs from sum_n (-x^)^n/(n+1)! by %.3g (tolerance %.3g): got %s, expected %s' % (x, d, tol, list(got), [float(v) for v in J.reshape(-1)])
+    return None
+
+
+CARRIERS = ('pp.Parameter(L)', 'copy.deepcopy(pp.Parameter(L))', 'copy.deepcopy(module holding pp.Parameter(L)).pose', 'copy.deepcopy([pp.Parameter(L), L])[0]',
+            'copy.deepcopy(nn.ParameterList([pp.Parameter(L)]))[0]', 'copy.deepcopy(copy.deepcopy(pp.Parameter(L)))',
+            'copy.deepcopy(P) of a pp.Parameter P overwritten in place by P.copy_(L)', 'module.load_state_dict(module holding pp.Parameter(L).state_dict()).pose',
+            'pp.Parameter(copy.deepcopy(L))', 'copy.deepcopy(L)', 'copy.copy(L)', 'pickle.loads(pickle.dumps(L))', 'torch.load(torch.save(L))',
+            'copy.deepcopy(L.clone().requires_grad_())', 'pp.Parameter(L).detach()', 'pp.Parameter(L).clone()')
+# Observations outside the quantifier (C05 speaks about group elements and tangent vectors, not about serialising Parameters);
+# seen on the unchanged tree, reported to the maintainer of this framework, NOT judged:
+#  - pickle.loads(pickle.dumps(P)), copy.copy(P) and torch.load(torch.save(P)) of a pp.Parameter P return a bare nn.Parameter
+#    (nn.Parameter.__reduce_ex__ is not overridden), which is not a LieTensor any more: not in the list;
+#  - copy.deepcopy of a plain LieTensor that requires grad returns an object on which every op raises RuntimeError ('A view was
+#    created in no_grad mode ...') while autograd is recording: that carrier is judged under torch.no_grad() only.
+CARRIER_NO_GRAD_ONLY = ('copy.deepcopy(L.clone().requires_grad_())',)
+CARRIER_OPS = {'X': ('+', '+wide', 'pp.add', 'Retr', 'Adj', 'AdjT', 'Jinvp', 'add_', 'Jr'), 'a': ('+', 'Retr', 'Adj', 'AdjT', 'Jinvp', 'alg+', 'Jr')}
+
+
+def make_carrier(pp, torch, name, L):
+    """the object `name` describes, built from the plain LieTensor L (which is left untouched)"""
+    import copy, pickle, io
+    nn = torch.nn
+
+    class Holder(nn.Module):
+        def __init__(self, V):
+            super().__init__()
+            self.lin = nn.Linear(2, 2)
+            self.pose = pp.Parameter(V)
+
+    if name == 'pp.Parameter(L)':
+        return pp.Parameter(L)
+    if name == 'copy.deepcopy(pp.Parameter(L))':
+        return copy.deepcopy(pp.Parameter(L))
+    if name == 'copy.deepcopy(module holding pp.Parameter(L)).pose':
+        return copy.deepcopy(Holder(L)).pose
+    if name == 'copy.deepcopy([pp.Parameter(L), L])[0]':
+        return copy.deepcopy([pp.Parameter(L), L])[0]
+    if name == 'copy.deepcopy(nn.ParameterList([pp.Parameter(L)]))[0]':
+        return copy.deepcopy(nn.ParameterList([pp.Parameter(L)]))[0]
+    if name == 'copy.deepcopy(copy.deepcopy(pp.Parameter(L)))':
+        return copy.deepcopy(copy.deepcopy(pp.Parameter(L)))
+    if name == 'copy.deepcopy(P) of a pp.Parameter P overwritten in place by P.copy_(L)':
+        P = pp.Parameter(pp.LieTensor(L.tensor().flip(0).clone() if L.dim() > 1 else L.tensor().clone(), ltype=L.ltype))
+        with torch.no_grad():
+            P.copy_(L)
+        return copy.deepcopy(P)
+    if name == 'module.load_state_dict(module holding pp.Parameter(L).state_dict()).pose':
+        m = Holder(pp.LieTensor(L.tensor().flip(0).clone() if L.dim() > 1 else L.tensor().clone(), ltype=L.ltype))
+        m.load_state_dict(copy.deepcopy(Holder(L).state_dict()))
+        return m.pose
+    if name == 'pp.Parameter(copy.deepcopy(L))':
+        return pp.Parameter(copy.deepcopy(L))
+    if name == 'copy.deepcopy(L)':
+        return copy.deepcopy(L)
+    if name == 'copy.copy(L)':
+        return copy.copy(L)
+    if name == 'pickle.loads(pickle.dumps(L))':
+        return pickle.loads(pickle.dumps(L))
+    if name == 'torch.load(torch.save(L))':
+        b = io.BytesIO()
+        torch.save(L, b)
+        b.seek(0)
+        return torch.load(b, weights_only=False)
+    if name == 'copy.deepcopy(L.clone().requires_grad_())':
+        return copy.deepcopy(L.clone().requires_grad_())
+    if name == 'pp.Parameter(L).detach()':
+        return pp.Parameter(L).detach()
+    if name == 'pp.Parameter(L).clone()':
+        return pp.Parameter(L).clone()
+    raise KeyError(name)
+
+
+def carrier_check(pp, torch, g, dname, carrier, role, op, Xrows, arows, grad, form):
+    """op with the X operand (role 'X') or the a operand (role 'a') held by `carrier`, the other operand a plain LieTensor;
+    batches of len(Xrows) elements, every item judged by the oracle of its op.  grad: call with autograd recording on
+    (Parameters require grad) or under torch.no_grad(); form: functional pp.op(X, a) or method X.op(a).
+    Returns a description of the first failure or None."""
+    dtype = torch.float64 if dname == 'float64' else torch.float32
+    eps = float(torch.finfo(dtype).eps)
+    alg = ALGS[GROUPS.index(g)]
+    gt, at = getattr(pp, g + '_type'), getattr(pp, alg + '_type')
+    raw = lambda t: torch.Tensor.as_subclass(t.detach(), torch.Tensor)
+    X0, a0 = torch.tensor(Xrows, dtype=dtype), torch.tensor(arows, dtype=dtype)
+    XL, aL = pp.LieTensor(X0.clone(), ltype=gt), pp.LieTensor(a0.clone(), ltype=at)
+    grad = grad and carrier not in CARRIER_NO_GRAD_ONLY
+    what = ('%s %s %s with the %s operand held as %s, L the plain LieTensor of its values (%s, %s)'
+            % (g, dname, op, role, carrier, 'autograd on' if grad else 'no_grad', 'pp.f(X, a)' if form else 'X.f(a)'))
+    try:
+        Q = make_carrier(pp, torch, carrier, XL if role == 'X' else aL)
+    except Exception as e:
+        return '%s: building the operand raised %r' % (what, e)
+    src = X0 if role == 'X' else a0
+    if tuple(Q.shape) != tuple(src.shape) or not torch.equal(raw(Q), src):
+        return '%s: the operand does not hold the values it was built from: %s vs %s' % (what, raw(Q).tolist(), src.tolist())
+    if not (torch.equal(XL.tensor(), X0) and torch.equal(aL.tensor(), a0)):
+        return '%s: building the operand changed the LieTensor it was built from' % what
+    Xo, ao = (Q, aL) if role == 'X' else (XL, Q)
+    wide = torch.cat([a0, torch.full(a0.shape[:-1] + (1,), 3.25, dtype=dtype)], dim=-1)
+    w0 = wide.clone()
+
+    def call():
+        if op == '+':
+            return Xo + ao
+        if op == '+wide':
+            return Xo + wide
+        if op == 'pp.add':
+            return pp.add(Xo, wide) if form else Xo.add(wide)
+        if op == 'add_':
+            with torch.no_grad():
+                return Xo.add_(wide)
+        if op == 'alg+':
+            return pp.add(ao, wide) if form else ao + wide
+        if op == 'Jr':
+            T = Xo if role == 'X' else ao
+            return pp.Jr(T) if form else T.Jr()
+        return getattr(pp, op)(Xo, ao) if form else getattr(Xo, op)(ao)
+    try:
+        if grad:
+            out = call()
+        else:
+            with torch.no_grad():
+                out = call()
+    except Exception as e:
+        return '%s raised %r on X = %s, a = %s' % (what, e, Xrows, arows)
+    if op == 'add_':
+        if not torch.equal(raw(out), raw(Xo)):
+            return '%s did not overwrite its input' % what
+    elif not (torch.equal(raw(Xo), X0) and torch.equal(raw(ao), a0) and torch.equal(wide, w0)):
+        return '%s changed one of its arguments' % what
+    n = len(Xrows)
+    if op == 'Jr':
+        if not isinstance(out, torch.Tensor) or tuple(out.shape) != (n, 3, 3):
+            return '%s returned %s of shape %s, expected a (%d, 3, 3) tensor' % (what, type(out).__name__, tuple(getattr(out, 'shape', ())), n)
+    else:
+        want, width = (at, ADIM[g]) if op in ('Adj', 'AdjT', 'Jinvp', 'alg+') else (gt, GDIM[g])
+        lt = getattr(out, 'ltype', None)
+        if not isinstance(out, pp.LieTensor) or type(lt) is not type(want) or tuple(out.shape) != (n, width):
+            return ('%s returned a %s of shape %s with ltype %s, expected a %s LieTensor of shape %s; X = %s, a = %s, result %s'
+                    % (what, type(out).__name__, tuple(getattr(out, 'shape', ())), type(lt).__name__, type(want).__name__, (n, width), Xrows, arows,
+                       raw(out).tolist() if isinstance(out, torch.Tensor) else out))
+    res = raw(out).reshape(n, -1).tolist()
+    for j in range(n):
+        Xl, al, got = [float(v) for v in Xrows[j]], [float(v) for v in arows[j]], [float(v) for v in res[j]]
+        if op in ('+', '+wide', 'pp.add', 'Retr', 'add_'):
+            why = retr_oracle(g, Xl, al, got, eps)
+            why = why and ('%s is not Exp(a) @ X: %s' % (op, why))
+        elif op in ('Adj', 'AdjT'):
+            why = adj_oracle(g, Xl, al, got, op == 'AdjT', eps)
+        elif op == 'Jinvp':
+            why = jinvp_oracle(g, Xl, al, got, eps)
+        elif op == 'Jr':
+            why = jr_oracle(log_ref('SO3', Xl) if role == 'X' else al, got, eps)
+        else:
+            exp = (a0[j] + wide[j][:ADIM[g]]).tolist()
+            why = None if got == exp else 'algebra + is not the vector sum of the first %d components: got %s, expected %s' % (ADIM[g], got, exp)
+        if why:
+            return '%s: item %d (X = %s, a = %s): %s' % (what, j, Xl, al, why)
+    return None
+
+
 def run(ctx):
     pp = import_pypose()
     import torch
@@ -672,6 +882,39 @@ def run(ctx):
                                        a=[[float(v) for v in r] for r in a.tensor().tolist()], d=[[float(v) for v in r] for r in d.tolist()]))
                     break
     stamp('algebra +, batches, histories')
+    # ---- carriers: the X operand / the a operand held by a pp.Parameter, by copies (deepcopy of a Parameter, of a module /
+    #      list / ParameterList holding one, of a plain LieTensor), by serialisation twins, by a Parameter overwritten in
+    #      place; batches of three elements (generic, identity / no rotation, w < 0) x (generic, zero / single component,
+    #      generic); autograd recording on / off; functional and method call forms; every item judged by its oracle
+    for gi, g in enumerate(GROUPS):
+        for ci, carrier in enumerate(CARRIERS):
+            for role in ('X', 'a'):
+                for dname in (('float64', 'float32') if ctx.scale(0, 1) else (rng.choice(['float64', 'float64', 'float32']),)):
+                    dtype = torch.float64 if dname == 'float64' else torch.float32
+                    Xrows, arows = [], []
+                    for j in range(3):
+                        X = generic_elt(rng, g, torch, dtype)
+                        tt, qq, ss = split_elt(g, X)
+                        if j == 1:
+                            X = join_elt(g, [0.0] * 3, [0.0, 0.0, 0.0, 1.0], 1.0) if (ci + gi) % 2 == 0 else join_elt(g, tt, [0.0, 0.0, 0.0, 1.0], ss)
+                        elif j == 2:
+                            X = join_elt(g, tt, [-v for v in qq] if qq[3] >= 0 else qq, ss)     # the w < 0 quaternion of the rotation
+                        Xrows.append([float(v) for v in torch.tensor(X, dtype=dtype).tolist()])
+                        a = [rng.uniform(-1.5, 1.5) for _ in range(ADIM[g])]
+                        if j == 1:
+                            sp = (ci + gi + (role == 'a')) % 3
+                            a = [[0.0] * ADIM[g], [0.0] * (ADIM[g] - 1) + [a[-1]], [a[0]] + [0.0] * (ADIM[g] - 1)][sp]
+                        arows.append([float(v) for v in torch.tensor(a, dtype=dtype).tolist()])
+                    for op in CARRIER_OPS[role]:
+                        if op == 'Jr' and g != 'SO3':
+                            continue
+                        grad, form = rng.random() < 0.5, rng.random() < 0.5
+                        c = dict(kind='carrier', g=g, dtype=dname, carrier=carrier, role=role, op=op, X=Xrows, a=arows, grad=grad, form=form)
+                        ctx.case((g, 'carrier', carrier, role, op, dname), branch='%s-carrier-%s-%s' % (g, role, op))
+                        why = guarded(lambda: carrier_check(pp, torch, g, dname, carrier, role, op, Xrows, arows, grad, form))
+                        if why:
+                            ctx.violation('carrier:%s:%s' % (g, op), why, c)
+    stamp('carriers (Parameter, copies, serialisation twins)')
     # ---- search
     for i in sorted(set(i for i, _ in r['bad'])):
         m = meta[i]
@@ -703,6 +946,8 @@ def replay(ctx, c):
         return adj_oracle(g, c['X'], c['a'], o, tr, eps) or (guarded(lambda: laws(pp, torch, g, c['X'], c['a'], dtype)) if max(abs(v) for v in c['a']) <= 30.0 else None)
     if c['kind'] == 'batch':
         return guarded(lambda: batch_check(pp, torch, c['g'], c['dtype'], c['op'], c['X'], c['a'], c['bx'], c['ba'], c['layout']))
+    if c['kind'] == 'carrier':
+        return guarded(lambda: carrier_check(pp, torch, c['g'], c['dtype'], c['carrier'], c['role'], c['op'], c['X'], c['a'], c['grad'], c['form']))
     if c['kind'] == 'algadd':
         alg = ALGS[GROUPS.index(c['g'])]
         k = ADIM[c['g']]
